@@ -114,7 +114,7 @@ class C04(core.Check):
                                        'means:align', 'means:created-zone', 'order:ascending', 'order:descending',
                                        'order:interleaved', 'overlap:non-adjacent', 'expect:REJECT', 'expect:ACCEPT',
                                        'output:bin', 'output:nobin', 'output:both', 'window-excludes-the-overlap',
-                                       'means:macro-with-non-byte-steps', 'means:embedded-string', 'means:zerountil-behind-the-cursor', 'means:include-from-inside-a-zone', 'means:configured-GLOBAL-with-origin-above-its-start', 'embedded-string:two-byte-character', 'embedded-string:three-byte-character', 'means:global-relative-org', 'unselected-origin-before-bytes']}
+                                       'means:macro-with-non-byte-steps', 'means:embedded-string', 'means:zerountil-behind-the-cursor', 'means:include-from-inside-a-zone', 'means:configured-GLOBAL-with-origin-above-its-start', 'embedded-string:two-byte-character', 'embedded-string:three-byte-character', 'embedded-string:cstr-ending-in-its-terminator', 'embedded-string:cstr-ending-in-its-terminator/configured', 'means:global-relative-org', 'unselected-origin-before-bytes']}
 
     def build(self, rng, items, means_list=None, order=None, mute=None, out_mode=None):
         """items: [(addr, len)]"""
@@ -277,10 +277,22 @@ class C04(core.Check):
         isa_s = gen_prog.layout_isa(16)
         isa_s['general']['allow_embedded_strings'] = True
         fn_s, text_s = isamod.render_isa(isa_s, 'json')
+        # a terminated string directive occupies its characters plus one terminator, also when the last character written
+        # has the terminator's value
+        isa_t = gen_prog.layout_isa(16)
+        isa_t['general']['cstr_terminator'] = 10
+        fn_t, text_t = isamod.render_isa(isa_t, 'json')
+        fn_s0, text_s0 = fn_s, text_s
         for sname, stext, sbytes in (('two-byte-character', '"caf\u00e9"', 'caf\u00e9'.encode('utf-8') + b'\0'),
                                      ('two-byte-characters', '"gr\u00fc\u00df"', 'gr\u00fc\u00df'.encode('utf-8') + b'\0'),
                                      ('three-byte-character', '"\u20ac5"', '\u20ac5'.encode('utf-8') + b'\0'),
-                                     ('ascii', '"plain"', b'plain\0')):
+                                     ('ascii', '"plain"', b'plain\0'),
+                                     ('cstr-ending-in-its-terminator', '.cstr "ab\\0"', b'ab\0\0'),
+                                     ('cstr-ending-in-its-terminator', '.asciiz "\\0"', b'\0\0'),
+                                     ('cstr-ending-in-its-terminator/configured', '.cstr "ab\\n"', b'ab\n\n'),
+                                     ('cstr-ending-in-its-terminator/configured', '.asciiz "q\\n\\n"', b'q\n\n\n'),
+                                     ('cstr-plain', '.cstr "ab"', b'ab\0')):
+            fn_s, text_s = (fn_t, text_t) if sname.endswith('/configured') else (fn_s0, text_s0)
             sz = len(sbytes)
             for at in range(0, sz + 2):
                 for order in ('string-first', 'string-last', 'sequential'):
@@ -305,7 +317,7 @@ class C04(core.Check):
                                      'env': {'PYTHONUTF8': '1'}, 'probes': ['steps'], 'step_limit': 300000}],
                            'meta': {'kind': 'REJECT' if overlap else 'ACCEPT', 'M': {str(k): v for k, v in M_.items()}, 'end': end_,
                                     'intervals': [[a0, sz], [other, 1]], 'out_mode': 'bin'},
-                           'tags': sorted({'means:embedded-string', 'embedded-string:' + sname, 'expect:' + ('REJECT' if overlap else 'ACCEPT'),
+                           'tags': sorted({'means:string-directive' if stext[0] == '.' else 'means:embedded-string', 'embedded-string:' + sname, 'expect:' + ('REJECT' if overlap else 'ACCEPT'),
                                            'output:bin', 'order:ascending' if (other >= a0) == (order != 'string-last') else 'order:descending'})}
         # a .zerountil whose target lies behind the cursor occupies nothing and moves nothing: the next line follows the
         # previous bytes, and a later line on an address already used still overlaps
